@@ -371,7 +371,14 @@ pub fn build(spec: &DocSpec) -> Built {
             labels.push("page/two-content-parts".into());
         } else {
             let c1 = a.get();
-            let (e1, f1) = encode_chain(&content, &cc, &mut tape);
+            let (e1, mut f1) = encode_chain(&content, &cc, &mut tape);
+            if cc.is_empty() && p.rotate % 5 == 3 {
+                // an optional entry that refers to an object that does not exist reads as null
+                // (alternately a number inside /Size that no section defines, and one beyond /Size)
+                let missing = if pi % 2 == 0 { a.get() } else { 9000 + pi as u64 };
+                f1.push((b("DecodeParms"), Val::Ref(missing, 0)));
+                labels.push("stream/dangling-decodeparms".into());
+            }
             objs.push((c1, Body::Stream(f1, e1)));
             d.push(("Contents", Val::Ref(c1, 0)));
         }
